@@ -31,7 +31,7 @@ ANCHORS = ['cli:UpdateCommand.__call__', 'cli:VerifyCommand.__call__',
            'recursiveloader:ManifestRecursiveLoader.save_manifests']
 REQUIRED = ['script_runs:meta', 'script_runs:single', 'verified_after_script',
             'regenerations',
-            'noop_updates_checked', 'edit_updates_checked']
+            'noop_updates_checked', 'edit_updates_checked', 'incremental_edit_updates']
 ASSUMPTIONS = ['the scripts are run with the tree under test first on PYTHONPATH and the '
                'same interpreter', 'the standard directories the meta script hard-codes '
                '(profiles/categories, eclass, licenses, metadata/{dtd,glsa,news,xml-schema,'
@@ -174,6 +174,18 @@ def apply_edits(root, edits):
         if ed['kind'] == 'change':
             with open(os.path.join(root, f), 'ab') as fh:
                 fh.write(b'changed')
+        elif ed['kind'] == 'same-size':
+            # rewritten in place with other content of the same length, half a second
+            # after the (whole-second) TIMESTAMP the generator wrote, if it wrote one
+            with open(os.path.join(root, f), 'rb') as fh:
+                old = fh.read()
+            if not old:
+                continue
+            with open(os.path.join(root, f), 'wb') as fh:
+                fh.write(bytes((b + 1) % 256 for b in old))
+            ts = top_timestamp(root)
+            if ts is not None:
+                os.utime(os.path.join(root, f), (ts + 0.5, ts + 0.5))
         elif ed['kind'] == 'delete':
             if os.path.exists(os.path.join(root, f)):
                 os.unlink(os.path.join(root, f))
@@ -195,6 +207,20 @@ def apply_edits(root, edits):
             nf = os.path.join(os.path.dirname(f), 'added-%d.txt' % (ed['pick'] % 1000))
             with open(os.path.join(root, nf), 'w') as fh:
                 fh.write('added')
+
+
+def top_timestamp(root):
+    import calendar
+    import time
+    try:
+        with open(os.path.join(root, 'Manifest')) as fh:
+            for ln in fh:
+                if ln.startswith('TIMESTAMP '):
+                    return calendar.timegm(time.strptime(ln.split()[1],
+                                                         '%Y-%m-%dT%H:%M:%SZ'))
+    except (OSError, ValueError):
+        pass
+    return None
 
 
 def root_is_repo(root):
@@ -289,7 +315,14 @@ def judge(ctx, root, case):
     # ---- edits, then update must restore a verifying tree
     if case['edits'] and not nested_files:
         apply_edits(troot, case['edits'])
-        ur = gemato_cli(['update', '-p', 'ebuild', troot], wseed=case['pre_seed'])
+        # (without a TIMESTAMP - single package directories - `--incremental` is
+        # refused with a message)
+        inc = ['--incremental'] if case.get('incremental') \
+            and top_timestamp(troot) is not None else []
+        if inc:
+            ctx.count('incremental_edit_updates')
+        ur = gemato_cli(['update', '-p', 'ebuild'] + inc + [troot],
+                        wseed=case['pre_seed'])
         if ur != 0:
             ctx.violation('update-after-edits-fails:' + (adapt.exc_key(ur) if isinstance(
                 ur, Exception) else str(ur)), '`gemato update -p ebuild` after edits '
@@ -317,8 +350,10 @@ def run_unit(u, ctx):
                 'pre': rng.random() < 0.5, 'pre_seed': rng.randrange(1 << 30),
                 'regen': rng.random() < 0.35,
                 'pick': rng.randrange(1 << 20),
+                'incremental': rng.random() < 0.5,
                 'edits': [{'kind': rng.choice(['change', 'add', 'delete', 'change', 'add',
-                                               'delete', 'new-package']),
+                                               'delete', 'new-package', 'same-size',
+                                               'same-size']),
                            'pick': rng.randrange(1 << 20)}
                           for _ in range(rng.randint(0, 5))]}
         exec_case(ctx, case)
